@@ -32,6 +32,19 @@ int vectorSet(const MPT_STRUCT(queue) *qu, struct iovec src[2])
 	return 1;
 }
 
+static void queueMoveFront(const MPT_STRUCT(queue) *qu, size_t pos, size_t len, size_t shift)
+{
+	uint8_t buf[256];
+	
+	while (len) {
+		size_t part = len < sizeof(buf) ? len : sizeof(buf);
+		mpt_queue_get(qu, pos + shift, part, buf);
+		mpt_queue_set(qu, pos, part, buf);
+		pos += part;
+		len -= part;
+	}
+}
+
 /*!
  * \ingroup mptQueue
  * \brief get next message
@@ -105,11 +118,11 @@ extern int mpt_queue_recv(MPT_STRUCT(decode_queue) *qu)
 	if (mpt_qpre(&qu->data, max) < 0) {
 		return MPT_ERROR(MissingBuffer);
 	}
-	/* correct data area offsets */
-	qu->_state.data.pos += max;
+	/* move decoded data to new front, added space separates it from encoded data */
+	queueMoveFront(&qu->data, qu->_state.data.pos, qu->_state.data.len, max);
 	qu->_state.curr += max;
 	
-	/* retry with bigger prefix space */
+	/* retry with bigger scratch space */
 	max = vectorSet(&qu->data, src);
 	if ((res = qu->_dec(&qu->_state, src, max)) < 0) {
 		return res;
